@@ -74,6 +74,12 @@ func genC01(seed uint64, tier string) *plan.Plan {
 		pl.Cfg["refresh"] = 2
 		pl.Cfg["ttl"] = 5
 	}
+	// a consumer behind the collector that stops taking messages for a while: the collector stops
+	// reading, the (bounded) receive window fills and the exporter's sends block until it resumes
+	slowConsumer := (tr == 0 || tr == 2) && r.IntN(3) == 0
+	if slowConsumer {
+		pl.Cfg["window"] = []int64{2048, 8192, 65536}[r.IntN(3)]
+	}
 	for sess := 0; sess < nSess; sess++ {
 		nT := 1 + r.IntN(3)
 		sizes := make([]int, nT)
@@ -101,6 +107,9 @@ func genC01(seed uint64, tier string) *plan.Plan {
 			if r.IntN(12) == 0 && tr != 3 && tr != 1 {
 				op.F = []plan.Op{{K: "size", A: int64(65535 - r.IntN(3))}} // a message of exactly (or nearly) the maximum size
 				op.B = 1
+			}
+			if slowConsumer && r.IntN(3) == 0 {
+				pl.Ops = append(pl.Ops, plan.Op{K: "cstall", T: sess, B: []int64{50, 900, 4000, 7000, 30000, 120000}[r.IntN(6)]})
 			}
 			pl.Ops = append(pl.Ops, op)
 			if r.IntN(5) == 0 {
@@ -152,15 +161,30 @@ func runC01(pl *plan.Plan, out *plan.Outcome) {
 	}
 	lossy := cfgOr(pl, "lossy", 0) == 1
 	chunk := int(cfgOr(pl, "chunk", 0))
+	if chunk == 3 && cfgOr(pl, "window", 0) > 0 {
+		// With a bounded window a write reaches the socket in many small portions; delaying pieces of
+		// every portion adds up to more than the time the harness waits for deliveries before it
+		// stops the collector. Segmentation without delays is kept.
+		chunk = 2
+	}
 	dups := 0
 	if tr == 1 && lossy {
 		prev := env.Net.OnUDPBind
 		_ = prev
 	}
 	var got []dMsg
+	var consumerStallUntil time.Time
 	env.Go("collector", func() { cp.Start() })
 	env.Go("consumer", func() {
 		for {
+			env.mu.Lock()
+			until := consumerStallUntil
+			env.mu.Unlock()
+			if d := time.Until(until); d > 0 {
+				env.Count("fault.consumer_stall", 1)
+				env.Sleep(d)
+				continue
+			}
 			var msg *entities.Message
 			var ok bool
 			Block("consume", func() { msg, ok = <-cp.GetMsgChan() })
@@ -187,6 +211,13 @@ func runC01(pl *plan.Plan, out *plan.Outcome) {
 				break
 			}
 			sessions = append(sessions, s)
+			s.onConsumerStall = func(d time.Duration) {
+				env.mu.Lock()
+				if t := time.Now().Add(d); t.After(consumerStallUntil) {
+					consumerStallUntil = t
+				}
+				env.mu.Unlock()
+			}
 			var ops []plan.Op
 			for _, op := range pl.Ops {
 				if op.T == si {
@@ -206,6 +237,10 @@ func runC01(pl *plan.Plan, out *plan.Outcome) {
 	env.Net.OnConnect = func(cl, sv *simnet.Conn) {
 		if prevConnect != nil {
 			prevConnect(cl, sv)
+		}
+		if w := int(cfgOr(pl, "window", 0)); w > 0 {
+			sv.SetWindow(w)
+			env.Count("c01.sessions_with_bounded_window", 1)
 		}
 		if chunk > 0 {
 			hr := rand.New(rand.NewPCG(pl.Seed, 0xc4))
